@@ -607,8 +607,8 @@ func (p *lcProg) use(e lcEntry, kid, stage string) {
 	}
 	exp := p.expect(kid)
 	cands := p.known
-	if e.kind == lcKindDecrypt && len(cands) > 3 {
-		cands = cands[:3]
+	if n := h.r.Pick(2, 4); e.kind == lcKindDecrypt && len(cands) > n {
+		cands = cands[:n] // ciphertexts for the most recent keys of the program (the designated one is added below if it is not among them)
 	}
 	if exp.key != nil {
 		has := false
@@ -1091,13 +1091,12 @@ func (h *harness) phaseKidLifecycle(nr *nodeRef) {
 			warmSets := [][]int{nil, usable}
 			singles := append([]int{}, usable...)
 			if !r.Thorough() {
-				// quick: two seeded single entry points on the node, one on the versioned key store (where the warm-up "none" is left to the chains)
+				// quick: one seeded single entry point per change (on the versioned key store the warm-up "none" is left to the chains)
 				rnd.Shuffle(len(singles), func(i, j int) { singles[i], singles[j] = singles[j], singles[i] })
-				singles = singles[:2]
+				singles = singles[:1]
 				if t.versions {
-					warmSets, singles = [][]int{usable}, singles[:1]
+					warmSets = [][]int{usable}
 				}
-				sort.Ints(singles)
 			}
 			for _, s := range singles {
 				warmSets = append(warmSets, []int{s})
@@ -1110,10 +1109,7 @@ func (h *harness) phaseKidLifecycle(nr *nodeRef) {
 			case "new-same-kid", "link-imported", "tx-rollback(new)", "tx-commit(new)", "tx-rollback(link)", "tx-commit(link)":
 				unreg := [][]int{nil, usable, {singles[0]}}
 				if !r.Thorough() {
-					unreg = unreg[1:] // quick: {all, single} on the node, {all} on the versioned key store
-					if t.versions {
-						unreg = unreg[:1]
-					}
+					unreg = unreg[1:2] // quick: {all}; seeded subsets come with the chains
 				}
 				for _, ws := range unreg {
 					run(lcSpec{class: "grid", start: "unregistered", warm: warmName(ws), steps: []lcStep{{warm: ws, mut: mut}}})
@@ -1121,10 +1117,7 @@ func (h *harness) phaseKidLifecycle(nr *nodeRef) {
 			}
 		}
 		// (2) seeded chains of changes with seeded warm-ups in between
-		chains, concurrent := r.Pick(8, 120), r.Pick(3, 20)
-		if t.versions && !r.Thorough() {
-			chains, concurrent = 6, 2
-		}
+		chains, concurrent := r.Pick(6, 120), r.Pick(2, 20)
 		for c := 0; c < chains; c++ {
 			spec := lcSpec{class: "chain", start: "new", warm: "seeded"}
 			if rnd.Intn(4) == 0 {
